@@ -37,7 +37,7 @@ def main(tier):
     run = Run(PROP, tier, replay)
     D, B = (3, 2) if tier == "quick" else (4, 2)
     if tier == "quick":  # depth 3 with budget 2 from the four seeds without a mux, budget 1 from the four mux seeds (their op menus are the largest)
-        st = e2.explore(run, ["single", "rails", "phases", "freed"], 3, 2, letters="RIM", trans_check=trans_check, state_check=state_check, phase_ops=False)
+        st = e2.explore(run, ["single", "rails", "phases", "freed", "blank", "chain"], 3, 2, letters="RIM", trans_check=trans_check, state_check=state_check, phase_ops=False)
         stb = e2.explore(run, ["mux", "mux3", "freed0", "rerail"], 3, 1, trans_check=trans_check, state_check=state_check, phase_ops=False)
         stc = e2.explore(run, ["mux", "mux3", "freed0", "rerail"], 2, 2, trans_check=trans_check, state_check=state_check, phase_ops=False)
         for o in (stb, stc):
@@ -58,8 +58,8 @@ def main(tier):
     run.require(st["rejected"] > 100 and run.nontrivial > 100, "too few rejected calls / change-delete states")
     return run.finish(
         rule="E2: breadth-first search over ALL sequences of add_source / add_comp / change_comp / del_comp (single parent by name or by rail, parent lists, same / fresh / colliding "
-             "names, none / fresh / own / colliding rails, kind changes among RLoss, Converter, ILoad, PMux, Source, both del_childs) of depth <= %d with deviation budget <= %d (quick: budget 2 from 4 seeds, budget 1 to depth 3 and budget 2 to depth 2 from the 4 mux seeds) from 8 seed "
-             "states (single source; rails; two sources + PMux; three-input PMux with an input that is the child of another input; phases; freed node index; PMux at graph index 0; a rail handed over to another owner)%s. States merged on K_full (graph with ordered adjacency + ordered registries + parameters + ghost free-index list). "
+             "names, none / fresh / own / colliding rails, kind changes among RLoss, Converter, ILoad, PMux, Source, both del_childs) of depth <= %d with deviation budget <= %d (quick: budget 2 from 4 seeds, budget 1 to depth 3 and budget 2 to depth 2 from the 4 mux seeds) from 10 seed "
+             "states (single source; rails; two sources + PMux; three-input PMux with an input that is the child of another input; phases; freed node index; PMux at graph index 0; a rail handed over to another owner; names with leading / trailing blanks; a chain on which an analysis has already run)%s. States merged on K_full (graph with ordered adjacency + ordered registries + parameters + ghost free-index list). "
              "Invariant on every distinct state: unique names, unique rails, names and rails disjoint, roots = Sources, loads are leaves, only PMux multi-parent, <= 1 PMux, every link allowed by the "
              "parent's child types, registries keyed by exactly the live names. non-trivial = distinct states first reached through change_comp or del_comp." % (D, B, "" if tier == "quick" else "; plus depth 5, budget 1 over 3 letters from 2 seeds"),
         states=st["states"], transitions=st["transitions"], traces=st["transitions"],
